@@ -17,6 +17,7 @@ import (
 	"strconv"
 	"strings"
 	"sync"
+	"sync/atomic"
 	"testing"
 	"time"
 
@@ -361,6 +362,79 @@ func vfRwsCase(f []string) string {
 	return fmt.Sprintf("ns=%s infl=%d cw=%d ss=%d", strings.Join(l, "."), infl, t.Channel.Cwnd(), t.Channel.Ssthresh())
 }
 
+// overlap: are the production goroutines serialised on one ControlChannel?  A tunnel is established through
+// Dispatch; its real runner goroutine (runner.go loop) calls Tick, which emits the owed ZLB through the send
+// callback.  The harness holds that callback (so Tick is provably in the middle of a channel operation) and
+// meanwhile pushes a Hello through Dispatch -> Recv from the punt side.  If Dispatch returns while Tick is
+// still inside the channel, two goroutines were inside one ControlChannel at once ("recv=returned");
+// with mutual exclusion Dispatch has to wait until the callback is released ("recv=blocked").
+func vfOverlapCase() string {
+	c := New(logger.Get("l2tp"))
+	peer := net.IPv4(10, 0, 0, 2).To4()
+	local := net.IPv4(10, 0, 0, 1).To4()
+	var armed atomic.Bool
+	entered := make(chan struct{}, 1)
+	release := make(chan struct{})
+	c.SetSendControlFn(func(localIP, peerIP net.IP, lp, pp uint16, h l2tppkt.Header, body []byte) error {
+		if armed.CompareAndSwap(true, false) {
+			entered <- struct{}{}
+			<-release
+		}
+		return nil
+	})
+	c.SetLNSConfigResolver(func(string) (LNSConfig, bool) {
+		return LNSConfig{LocalHostname: "lns", ReceiveWindowSize: 16, HelloInterval: time.Hour}, true
+	})
+	dispatch := func(tid, ns, nr uint16, body []byte) error {
+		h := l2tppkt.NewControl(tid, 0, ns, nr)
+		wire := append(h.AppendTo(nil, len(body)), body...)
+		pkt := &dataplane.ParsedPacket{
+			Protocol: models.ProtocolL2TP,
+			IPv4:     &layers.IPv4{SrcIP: peer, DstIP: local},
+			UDP:      &layers.UDP{SrcPort: 1701, DstPort: 1701},
+		}
+		pkt.UDP.Payload = wire
+		return c.Dispatch(pkt)
+	}
+	body := l2tppkt.BuildSCCRQ(l2tppkt.SCCRQParams{HostName: "lac", LocalTunnelID: 99, ReceiveWindowSize: 16, FramingCaps: 3})
+	if err := dispatch(0, 0, 0, body); err != nil {
+		return "sccrq-failed"
+	}
+	var t *Tunnel
+	c.mu.RLock()
+	for _, x := range c.tunnels {
+		t = x
+	}
+	c.mu.RUnlock()
+	if t == nil {
+		return "no-tunnel"
+	}
+	armed.Store(true)
+	_ = dispatch(t.LocalID, 1, 1, l2tppkt.BuildSCCCN(nil)) // acknowledges SCCRP, arms the ZLB timer
+	res := "no-tick"
+	select {
+	case <-entered: // the runner goroutine is now inside Tick -> send callback
+		done := make(chan struct{})
+		go func() {
+			_ = dispatch(t.LocalID, 2, 1, l2tppkt.BuildHello())
+			close(done)
+		}()
+		select {
+		case <-done:
+			res = "recv=returned"
+		case <-time.After(400 * time.Millisecond):
+			res = "recv=blocked"
+		}
+		close(release)
+		<-done
+	case <-time.After(5 * time.Second):
+		armed.Store(false)
+		close(release)
+	}
+	c.stopTunnelRunner(t.PeerIP, t.LocalID)
+	return "tick-in-send " + res
+}
+
 func vfDispGuard(line string) string {
 	done := make(chan string, 1)
 	go func() {
@@ -372,6 +446,8 @@ func vfDispGuard(line string) string {
 		f := strings.Fields(line)
 		if len(f) >= 2 && f[0] == "disp" {
 			done <- vfDispCase(f[1:])
+		} else if len(f) == 1 && f[0] == "overlap" {
+			done <- vfOverlapCase()
 		} else if len(f) == 5 && f[0] == "rws" {
 			done <- vfRwsCase(f[1:])
 		} else if len(f) >= 3 && f[0] == "full" {
